@@ -72,11 +72,13 @@ package container
 //@   requires modelsWF()
 //@   ensures [C17,C18] same: result1 == cborErr(b64dec(bytes(data))) && (result1 == nil ==> (forall k cid.Cid :: has(result0, k) == cborHas(b64dec(bytes(data)), k)))
 //@ func FromCar
+//@   requires modelsWF()
 //@   ensures [C17,C18] same: result1 == carErr(bytes(data)) && (result1 == nil ==> (forall k cid.Cid :: has(result0, k) == carHas(bytes(data), k)))
 //@ func FromCarBase64Reader
-//@   requires r != nil
+//@   requires r != nil && modelsWF()
 //@   ensures [C17,C18] same: result1 == carErr(b64dec(content(r))) && (result1 == nil ==> (forall k cid.Cid :: has(result0, k) == carHas(b64dec(content(r)), k)))
 //@ func FromCarBase64
+//@   requires modelsWF()
 //@   ensures [C17,C18] same: result1 == carErr(b64dec(bytes(data))) && (result1 == nil ==> (forall k cid.Cid :: has(result0, k) == carHas(b64dec(bytes(data)), k)))
 //@
 //@ // ---- C18: writers surface every fault of the sink, including the final flush of the base64 encoder ------
